@@ -1,7 +1,8 @@
 import RLV.Lemmas.Kill
+import RLV.Lemmas.KillCmds
 /-! C16 — Yank gives back exactly what kill took (property theorems; helper lemmas live in RLV/Lemmas). -/
 namespace RLV.Props.C16
-open RLV.Core
+open RLV.Core RLV.Kill
 
 /-- Killing the range `[b, e)` and yanking the removed text at the cut point restores the buffer,
 for every buffer without NUL runes and every range inside it. -/
@@ -17,5 +18,48 @@ theorem cut_removes_range (l : Line) (b e : Int) (hb : 0 ≤ b) (hbe : b ≤ e) 
 
 -- the hypotheses are satisfiable by a non-trivial state
 example : (0:Int) ≤ 1 ∧ (1:Int) ≤ 3 ∧ (3:Int) ≤ len [97, 98, 32, 99] ∧ ∀ c ∈ [97, 98, 32, 99], c ≠ 0 := by decide
+
+
+/-! The commands themselves. `Kill.killLine`, `backwardKillLine`, `backwardKillWord` and `yank` are the
+models of the command closures (emacs.go), compared with the real closures on every run
+(`rlv-diff -model kill`); `Kill.Restores s s1` says of the state `s1` a kill command leaves from `s`:
+either it removed nothing and left the kill ring alone, or the kill ring's top is exactly the text it
+removed (`s.line = s1.line.take p ++ s1.kill ++ s1.line.drop p`) and `yank` from `s1` gives a buffer
+equal to `s.line`. -/
+
+/-- `kill-line` then `yank` restores the buffer: EVERY buffer without NUL runes (any number of lines),
+every cursor (in or out of range), every state of the selection (stale marks and visual flags included);
+the command never panics. -/
+theorem kill_line_then_yank_restores (s : St) (hnz : ∀ c ∈ s.line, c ≠ 0) :
+    ∃ s1, killLine s = .ok s1 ∧ Restores s s1 :=
+  killLine_yank s hnz
+
+/-- `backward-kill-line` (and `unix-line-discard`, the same closure) then `yank` restores the buffer. -/
+theorem backward_kill_line_then_yank_restores (s : St) (hnz : ∀ c ∈ s.line, c ≠ 0) :
+    ∃ s1, backwardKillLine s = .ok s1 ∧ Restores s s1 :=
+  backwardKillLine_yank s hnz
+
+/-- `backward-kill-word` then `yank` restores the buffer, whatever the tokeniser makes of the text
+before the cursor (the only thing used of it: it never asks to move forward). Partial in one respect:
+no stale visual-line flag (the flag is only ever set by the Vi visual-line command, and cleared by
+every selection reset), and the no-panic part is not in this statement. -/
+theorem backward_kill_word_then_yank_restores_partial (s s1 : St) (hnz : ∀ c ∈ s.line, c ≠ 0)
+    (hvl : s.sel.visualLine = false) (h : backwardKillWord s = .ok s1) : Restores s s1 :=
+  backwardKillWord_yank s s1 hnz hvl h
+
+/-- after several kills `yank` inserts the most recent one: the top of the kill ring is the text of the
+last kill that removed something -/
+theorem most_recent_kill_is_on_top (s : St) (t u : List Nat) (hu : u ≠ []) :
+    (write (write s t) u).kill = u :=
+  write_latest s t u hu
+
+-- non-vacuity: `ab cd\nef`, cursor after `ab`: kill-line stores ` cd`, leaves `ab\nef`, yank gives it back;
+-- backward-kill-word from the end of `ab cd` stores `cd`
+example : (match killLine { line := [97, 98, 32, 99, 100, 10, 101, 102], cur := ⟨2, -1⟩ } with
+    | .ok s1 => s1.kill == [32, 99, 100] && s1.line == [97, 98, 10, 101, 102] &&
+        (match yank s1 with | .ok s2 => s2.line == [97, 98, 32, 99, 100, 10, 101, 102] | _ => false)
+    | _ => false) = true := by decide
+example : (match backwardKillWord { line := [97, 98, 32, 99, 100], cur := ⟨5, -1⟩ } with
+    | .ok s1 => s1.kill == [99, 100] && s1.line == [97, 98, 32] | _ => false) = true := by decide
 
 end RLV.Props.C16
